@@ -441,12 +441,12 @@ impl Harness for C15 {
 
         // ---- ROC-AUC
         // every score vector over {0,1/4,1/2,1} x every label vector
-        let q4_max = if t { 10 } else { 7 };
+        let q4_max = if t { 9 } else { 7 };
         for n in 2..=q4_max {
             push_split(&mut jobs, &format!("auc-q4-n{}", n), json!({"kind": "auc", "n": n, "alpha": 0, "seed": seed, "f32": n <= 6}), &[vec![4; n], vec![2; n]].concat(), cap);
         }
         // {0,1,2}: n >= 8 reaches the partition code of the sort
-        let t3_max = if t { 12 } else { 8 };
+        let t3_max = if t { 10 } else { 8 };
         for n in 8..=t3_max {
             push_split(&mut jobs, &format!("auc-t3-n{}", n), json!({"kind": "auc", "n": n, "alpha": 1, "seed": seed, "f32": n <= 8}), &[vec![3; n], vec![2; n]].concat(), cap);
         }
@@ -465,7 +465,7 @@ impl Harness for C15 {
 
         Plan {
             jobs,
-            budget_s: if t { 2400 } else { 40 },
+            budget_s: if t { 2700 } else { 40 },
             case_deadline_ms: 20_000,
             floors: vec![
                 ("binary_pairs", 80_000),
